@@ -60,6 +60,10 @@ class Rec(Exception):
     """reference: a delivery reached a block that is handling an event"""
 
 
+class Unk(Exception):
+    """reference: an event of a type unknown to its destination (reported to all callers)"""
+
+
 # ------------------------------------------------------------------ configs
 
 def graphs(n):
@@ -95,11 +99,9 @@ def patterns(kinds, edges, full):
     b = base('out')
     idxs = range(len(edges)) if full else range(min(1, len(edges)))
     for e in idxs:
-        for filt in ('reject', 'condnone'):
-            if b[e][2] == 'fwd' and filt == 'reject':
-                continue    # a Repeat's forwarding event has no filter
-            if b[e][2] == 'fwd' and filt == 'condnone':
-                continue
+        for filt in ('reject', 'condnone', 'unknown'):
+            if b[e][2] == 'fwd':
+                continue    # a Repeat's forwarding event has no filter / fixed event type
             pats.append(tuple((i, j, ek, filt if x == e else f) for x, (i, j, ek, f) in enumerate(b)))
     seen, out = set(), []
     for p in pats:
@@ -195,6 +197,14 @@ class RefNet:
             if j in self.active:
                 raise Rec(j)
             return
+        if filt == 'unknown':
+            # refused by the destination with EdzedUnknownEvent (a Repeat just ignores it); the
+            # error travels through every handler on the way back to the external sender
+            if j in self.active:
+                raise Rec(j)
+            if self.kinds[j] == 'R':
+                return
+            raise Unk(j)
         self.deliver(j, value)
 
     # ---- start-up (events are not gated off): blocks are initialised in creation order; an
@@ -414,6 +424,8 @@ def build(cfg, gate):
         if filt == 'condnone':
             et = edzed.EventCond(None, et)     # values are truthy -> 'no event'
         flt = [gatef] + ([rejectf] if filt == 'reject' else [])
+        if filt == 'unknown':
+            et = 'vt_no_such_event'
         if e[2] == 'err':
             flt.append(edzed.DataEdit.add(value=ERRVAL))    # on_error events carry no value
         return edzed.Event(names[j], et, efilter=flt)
@@ -565,12 +577,14 @@ def run_seq(cfg, seq, acc):
                     et = 'no_such_event'
                 if variant == 'missing':
                     kwargs = {}
-                exp_rec = False
+                exp_rec = exp_unk = False
                 if variant == 'valid':
                     try:
                         ref.deliver(tgt, uniq)
                     except Rec:
                         exp_rec = True
+                    except Unk:
+                        exp_unk = True
                 raised = None
                 nlog = len(sim.logs)
                 try:
@@ -593,7 +607,12 @@ def run_seq(cfg, seq, acc):
                                  f"{label}: no recursion possible but the simulation ended with "
                                  f"{err!r} (send() raised {raised!r})"))
                     return
-                if variant == 'valid' and raised is not None:
+                if exp_unk:
+                    if not isinstance(raised, edzed.EdzedUnknownEvent):
+                        viol.append(('unknown-event-not-reported',
+                                     f"{label}: an output event of unknown type was refused on the "
+                                     f"way, but send() raised {raised!r}"))
+                elif variant == 'valid' and raised is not None:
                     viol.append(('valid-event-raised', f"{label}: send() raised {raised!r}"))
                 if variant == 'unknown' and k != 'R' and not isinstance(raised, edzed.EdzedUnknownEvent):
                     viol.append(('unknown-event-not-reported', f"{label}: send() raised {raised!r}"))
